@@ -175,7 +175,7 @@ func runC07(w *World) {
 		}
 		w.NonTrivial = true
 		w.Probe("cell:" + clause + ":" + cell)
-		w.Rel(fmt.Sprintf("%s|%s|O=%s closed=%v|I=%s closed=%v|est=%d", clause, cell, descFrames(O.AllFrames()), O.LocalClosed(), descFrames(I.AllFrames()), I.LocalClosed(), p.Plug.NEst))
+		w.Rel(fmt.Sprintf("%s|%s|O=%s closed=%v|I=%s closed=%v|est=%d|%s", clause, cell, descFrames(O.AllFrames()), O.LocalClosed(), descFrames(I.AllFrames()), I.LocalClosed(), p.Plug.NEst, wireOrder(O, I)))
 		sample("outbound_frames", descFrames(O.AllFrames()))
 		sample("inbound_frames", descFrames(I.AllFrames()))
 		nClosed := 0
@@ -347,4 +347,33 @@ func runC07(w *World) {
 		}
 		finish(O)
 	}
+}
+
+// wireOrder is the global interleaving of what corebgp did on the two
+// connections (frame types and closes in event-sequence order): the
+// schedule-dependent part of a collision's observable history.
+func wireOrder(cs ...*Conn) string {
+	type ev struct {
+		seq uint64
+		s   string
+	}
+	var evs []ev
+	for i, c := range cs {
+		for _, f := range c.AllFrames() {
+			evs = append(evs, ev{f.Seq, fmt.Sprintf("%d%c", i, "?OUNK"[f.Type])})
+		}
+		if c.LocalClosed() {
+			evs = append(evs, ev{c.LCloseSeq, fmt.Sprintf("%dx", i)})
+		}
+	}
+	for i := 1; i < len(evs); i++ {
+		for j := i; j > 0 && evs[j].seq < evs[j-1].seq; j-- {
+			evs[j], evs[j-1] = evs[j-1], evs[j]
+		}
+	}
+	out := ""
+	for _, e := range evs {
+		out += e.s + " "
+	}
+	return out
 }
